@@ -89,6 +89,13 @@ def check_a(cmd):
         with lib("marshall_cdb"):
             b2 = cmd.cls.marshall_cdb(back)
         expect(bytes(b2) == bytes(b), "mismatch:reencode", a=b, b=b2)
+        # the instance spelling, repeatedly on one object
+        own = bytes(inst.cdb)
+        with lib("build_cdb"):
+            i1 = inst.build_cdb(**dict(d))
+            i2 = inst.build_cdb(**dict(d))
+        expect(bytes(i1) == bytes(b) and bytes(i2) == bytes(b), "mismatch:instance_build_cdb", first=bytes(i1), second=bytes(i2), want=bytes(b))
+        expect(bytes(inst.cdb) == own, "mismatch:build_cdb_changed_the_commands_own_cdb")
         lay = layout_of(cmd)
         nz = sum(1 for v in d.values() if v)
         top = any((w > 8 or (m & 0xFF) != 0xFF and w > 1) and d[k] >> (w - 1) for k, (m, o, w) in lay.items())
